@@ -10,25 +10,28 @@ PROP = {
                   "complete node shape"),
     "level_text": ("Kernel-checked theorems for every node capacity >= 1, capacity step, first-pool rule, linear and binary in-node search, "
                    "unique and multi keys, every item type and every comparison that is asymmetric with a transitive 'not greater': on every "
-                   "well-formed tree (empty leaves and empty internal nodes allowed) lower/upper bound, find and contains denote the indexes "
-                   "std::lower_bound/upper_bound give on the in-order list; ++/-- move the index by one, forward traversal = the list, backward = "
-                   "its reverse; pvAdd at any iterator (in place, grow, cascading split, new root) = List.insertIdx at the iterator's index; "
-                   "pvInsert = stable upper-bound insertion (unique keys: no insertion, iterator to the equivalent element); pvRemove for leaf "
-                   "and internal items (predecessor from a leaf or an internal node, empty left subtree destroyed) with the whole pvRebalance loop "
-                   "(merges, fast stop, saved node, root collapse) = List.eraseIdx with the returned iterator at the same index; ResetKey = "
-                   "List.set; all keep balance, capacities and count. History theorem over insert / hinted add / remove by iterator / extract + "
-                   "re-insert / key reset / clear from the empty container. The executable model additionally contains range removal, removal by key "
-                   "and predicate, range insert, all MergeTo paths (swap, pvMergeFast, pvMergeToLinear, generic), copy, move, swap, and is compared "
-                   "with the real containers operation by operation on every run."),
-    "level_note": ("Partial: the history theorem (C02_history_partial) does not cover remove by key with multi keys, by iterator range and by "
-                   "predicate, range insert, merge and copy; their full statement is the definition C02_history; for these the model is tied to the "
-                   "implementation and to the std::multiset oracle by the correspondence run only. Trusted: Lean kernel, the three standard axioms, "
-                   "extractor, correspondence harness (g++ -fno-access-control, ASan+UBSan). Modelled not verified: parent pointers (abstracted to "
-                   "paths), item storage inside nodes (contiguous / indexed layout, relocation by memcpy / move / copy), memory pools."),
+                   "well-formed tree (empty leaves and empty internal nodes allowed) lower/upper bound, find, contains and key count denote the "
+                   "indexes std::lower_bound/upper_bound give on the in-order list; ++/-- move the index by one, forward traversal = the list, "
+                   "backward = its reverse; pvAdd at any iterator (in place, grow, cascading split, new root) = List.insertIdx at the iterator's "
+                   "index; pvInsert = stable upper-bound insertion (unique keys: no insertion, iterator to the equivalent element); pvRemove for "
+                   "leaf and internal items (predecessor from a leaf or an internal node, empty left subtree destroyed) with the whole pvRebalance "
+                   "loop (merges, fast stop, saved node, root collapse) = List.eraseIdx with the returned iterator at the same index; "
+                   "Remove(begin,end) incl. pvRemoveRange = take ++ drop; Remove(key), Remove(filter) = List.filter; Insert(range) with its shortcut "
+                   "= repeated stable insertion; MergeTo by every path (swap, pvMergeFast for any two heights, pvMergeTo, pvMergeToLinear) = the "
+                   "reference merge; ResetKey = List.set; copy = same sequence; all keep balance, capacities, count and sortedness. History "
+                   "theorem C02_history: for every finite history of all these operations from the empty container the model's sequence equals "
+                   "the reference sequence and the invariants hold. The executable model is compared with the real containers operation by "
+                   "operation (results, positions, traversals, bounds, complete node shape) on every run."),
+    "level_note": ("Nothing is left partial at the level of the model. Trusted: Lean kernel, the three standard axioms (the reference semantics "
+                   "of merge tests well-formedness of the other container classically), extractor, correspondence harness (g++ -fno-access-control, "
+                   "ASan+UBSan). Modelled not verified: parent pointers (abstracted to paths; the bottom-up loops are unwound along the path), item "
+                   "storage inside nodes (contiguous / indexed layout, relocation by memcpy / move / copy), memory pools; move and swap exchange "
+                   "whole containers (harness only)."),
     "modules": ["Momo.Props.C02"],
     "theorems": [
         "Momo.BTree.C02_bounds",
         "Momo.BTree.C02_find_contains",
+        "Momo.BTree.C02_key_count",
         "Momo.BTree.C02_traversal",
         "Momo.BTree.C02_iterator_steps",
         "Momo.BTree.C02_hinted_add",
@@ -36,7 +39,15 @@ PROP = {
         "Momo.BTree.C02_remove_iterator",
         "Momo.BTree.C02_rebalance_preserves",
         "Momo.BTree.C02_reset_key",
-        "Momo.BTree.C02_history_partial",
+        "Momo.BTree.C02_remove_range",
+        "Momo.BTree.C02_remove_key",
+        "Momo.BTree.C02_remove_if",
+        "Momo.BTree.C02_insert_range",
+        "Momo.BTree.C02_merge_fast",
+        "Momo.BTree.C02_merge",
+        "Momo.BTree.C02_copy",
+        "Momo.BTree.C02_history",
+        "Momo.BTree.C02_history_core",
     ],
     "harnesses": [
         {"name": "c02_btree_p%d" % k, "src": "c02_btree.cpp", "sanitize": "asan", "flags": ["-DC02_PART=%d" % k, "-O0"],
